@@ -233,6 +233,44 @@ Proof.
   split; [intros a oa b ib Hin; apply Hinc; now apply El|]. split; [exact Ei|now apply Hlive].
 Qed.
 
+(** the same for every automaton compiled from single-root patterns only (any number of other
+    patterns around the good one): hypotheses [aut_single_root], [match_keys_in], evaluated on
+    every such dump (pg-srset) *)
+Theorem c11_portgraph_matcher_self_good_in_single_root_sets :
+  forall (P : pghost) (root : N) cs nk (A : automaton pgkey pgpred) rk ids css pres i fuel ms,
+    pg_cvec_full P root = Ok (cs, nk) -> lines_sound P root = true -> keys_distinct nk = true ->
+    pg_good_pattern P root cs nk = true -> pg_host_wfb P = true -> In root (live_nodes P) ->
+    wf_check pg_dom A rk ids = true -> cert_complete pg_entails pg_refutes A css pres = true ->
+    nth_error css i = Some cs -> nth_error pres i = Some true ->
+    aut_single_root A = true -> match_keys_in nk A (N.of_nat i) = true ->
+    run pg_dom fuel A P = Ok ms ->
+    exists st keys b, In st (au_states A) /\ In (N.of_nat i, keys) (a_matches st) /\ In (N.of_nat i, b) ms
+      /\ forall k, In k keys -> exists u, In (u, k) nk /\ pgget b k = Some u.
+Proof.
+  intros P root cs nk A rk ids css pres i fuel ms CV Hls Hkd Hg Hw Hl W CC Hcs Hpr Hsr Hmk R.
+  apply (pg_run_reports_embedding_single_root_sets P root cs nk P (fun u => u) A rk ids css pres i fuel ms CV Hls Hkd Hg Hw Hw); auto.
+  split; [auto|]. split; [auto|exact Hl].
+Qed.
+
+Theorem c11_portgraph_matcher_extension_good_in_single_root_sets :
+  forall (P : pghost) (root : N) cs nk (H H' : pghost) (f : N -> N)
+         (A : automaton pgkey pgpred) rk ids css pres i fuel ms,
+    pg_cvec_full P root = Ok (cs, nk) -> lines_sound P root = true -> keys_distinct nk = true ->
+    pg_good_pattern P root cs nk = true -> pg_host_wfb P = true ->
+    pg_embedding P H root nk f ->
+    incl (pg_links H) (pg_links H') -> incl (live_nodes H) (live_nodes H') -> pg_host_wfb H' = true ->
+    wf_check pg_dom A rk ids = true -> cert_complete pg_entails pg_refutes A css pres = true ->
+    nth_error css i = Some cs -> nth_error pres i = Some true ->
+    aut_single_root A = true -> match_keys_in nk A (N.of_nat i) = true ->
+    run pg_dom fuel A H' = Ok ms ->
+    exists st keys b, In st (au_states A) /\ In (N.of_nat i, keys) (a_matches st) /\ In (N.of_nat i, b) ms
+      /\ forall k, In k keys -> exists u, In (u, k) nk /\ pgget b k = Some (f u).
+Proof.
+  intros P root cs nk H H' f A rk ids css pres i fuel ms CV Hls Hkd Hg Hw [El [Ei Er]] Hinc Hlive Hw' W CC Hcs Hpr Hsr Hmk R.
+  apply (pg_run_reports_embedding_single_root_sets P root cs nk H' f A rk ids css pres i fuel ms CV Hls Hkd Hg Hw Hw'); auto.
+  split; [intros a oa b ib Hin; apply Hinc; now apply El|]. split; [exact Ei|now apply Hlive].
+Qed.
+
 Example c11_example :
   occ_stringb [Lit 97; Var 1; Var 1]%N (s_inst (fun _ => 98%N) [Lit 97; Var 1; Var 1]%N) 0 = true
   /\ s_ext [97; 98; 98]%N 0 ([99] ++ ([97; 98; 98] ++ [97]))%N 1.
@@ -262,3 +300,5 @@ Print Assumptions c11_portgraph_single_extension_good.
 Print Assumptions c11_portgraph_self_spec.
 Print Assumptions c11_portgraph_extension_spec.
 Print Assumptions c11_portgraph_matcher_extension_refuted.
+Print Assumptions c11_portgraph_matcher_self_good_in_single_root_sets.
+Print Assumptions c11_portgraph_matcher_extension_good_in_single_root_sets.
